@@ -333,6 +333,9 @@ def unlink(pid):
                     for b, k, val, vals in _edges(f):
                         if any(rx.match(a) for a in g.describe_all(b, val, vals)):
                             tested.update(v.pg.edge_node(b, f.succ(b)[k]))
+                    # ... or handed on: the link's value is copied into what is then written into the parent's
+                    # link (`replacement = node.right_sibling`): the subtree below it stays in the tree whatever it is
+                    tested |= _link_handed_on(f, v, pr, var, link)
                     # the other link's tests are tracked so that `l != NO .. else if l == NO` is not walked as a path
                     other = "right_sibling" if link == "left_sibling" else "left_sibling"
                     rxo = re.compile(r"^\((Eq|Ne)\(Directory::dir_entry\(param:self,var:%s\)\.%s,const:(consts::)?NO_STREAM\)\)$" % (re.escape(var), other))
@@ -624,3 +627,137 @@ def fold(pid):
         res.floor("folded returns", n, ctx.table("floors").get("fold_returns", 0))
         return res
     return run
+
+
+def _link_handed_on(f, v, pr, var, link):
+    from dataflow import forward_taint, rv_places
+    loads = set()
+    want = "Directory::dir_entry(param:self,var:%s).%s" % (var, link)
+    for bb, blk in enumerate(f.blocks):
+        for i, st in enumerate(blk["stmts"]):
+            if st["s"] == "assign" and not st["place"]["proj"] and st["rv"]["r"] == "use" and st["rv"]["op"]["k"] in ("copy", "move") \
+                    and st["rv"]["op"]["place"]["proj"] and pr.place(st["rv"]["op"]["place"]) == want:
+                loads.add(st["place"]["local"])
+    if not loads:
+        return set()
+    taint = forward_taint(f, loads, through_refs=False)
+    # sinks: values written as a link (write_le_u32 payload, stores to link fields)
+    sink_locals = set()
+    for c in v.calls.values():
+        if c.name.endswith("write_le_u32") and len(c.term["args"]) > 1 and c.term["args"][1]["k"] in ("copy", "move"):
+            sink_locals.add(c.term["args"][1]["place"]["local"])
+    for blk in f.blocks:
+        for st in blk["stmts"]:
+            if st["s"] == "assign" and st["place"]["proj"] and st["place"]["proj"][-1].get("name") in ("left_sibling", "right_sibling", "child"):
+                for p_ in rv_places(st["rv"]):
+                    sink_locals.add(p_["local"])
+    out = set()
+    for bb, blk in enumerate(f.blocks):
+        for i, st in enumerate(blk["stmts"]):
+            if st["s"] == "assign" and not st["place"]["proj"] and st["place"]["local"] not in loads and any(p_["local"] in taint for p_ in rv_places(st["rv"])):
+                d = st["place"]["local"]
+                if forward_taint(f, {d}, through_refs=False) & sink_locals:
+                    out.add(("s", bb, i))
+    return out
+
+
+# ---------------------------------------------------------------------------
+def linkkeep(pid):
+    """R-LINKKEEP: links are conserved by tree surgery.  Whenever a sibling/child link of an existing entry is
+    overwritten, what it pointed to is accounted for: it was tested to be empty, or it is the node being released,
+    or its value was loaded and handed on into another link (or into the id that is released)."""
+    from dataflow import forward_taint, rv_places
+    LINKF = ("left_sibling", "right_sibling", "child")
+
+    def run(ctx):
+        res = RuleResult("R-LINKKEEP(%s)" % pid, "every overwrite of a sibling/child link of an existing directory entry is preceded by an account of the old link: tested against NO_STREAM, equal to the released node, or loaded and handed on to another link")
+        accessors = ctx.table("reloc").get("entry_accessors", [])
+        n = 0
+        for f in ctx.fx.fns.values():
+            if not f.path.startswith("internal::directory::"):
+                continue
+            v = view(ctx, f)
+            accs = [c for c in v.calls.values() if c.name in accessors and len(c.term["args"]) > 1]
+            if not accs:
+                continue
+            pr = Prov(f)
+            g = _guards(ctx, f)
+            names = {nm: l for l, nm in f.debug_names().items()}
+            # sinks: a value that ends up in a link, on disk as a link, or released
+            sinks = set()
+            for c in v.calls.values():
+                if c.name.endswith("write_le_u32") and len(c.term["args"]) > 1 and c.term["args"][1]["k"] in ("copy", "move"):
+                    sinks.add(c.term["args"][1]["place"]["local"])
+                if c.name.endswith("free_dir_entry") and len(c.term["args"]) > 1 and c.term["args"][1]["k"] in ("copy", "move"):
+                    sinks.add(c.term["args"][1]["place"]["local"])
+            link_stores = []
+            for a in accs:
+                refs = forward_taint(f, {a.term["dest"]["local"]})
+                for bb, blk in enumerate(f.blocks):
+                    if blk["cleanup"]:
+                        continue
+                    for i, st in enumerate(blk["stmts"]):
+                        if st["s"] == "assign" and st["place"]["local"] in refs and st["place"]["proj"] and st["place"]["proj"][-1].get("p") == "field" and st["place"]["proj"][-1].get("name") in LINKF:
+                            link_stores.append((a, bb, i, st))
+                            for p_ in rv_places(st["rv"]):
+                                sinks.add(p_["local"])
+
+            def handed_on(local):
+                return bool(forward_taint(f, {local}, through_refs=False) & sinks)
+
+            def released_or_handed(varname):
+                l = names.get(varname)
+                return l is not None and handed_on(l)
+
+            for (a, bb, i, st) in link_stores:
+                n += 1
+                fld = st["place"]["proj"][-1]["name"]
+                e = pr.operand(a.term["args"][1])
+                vs = {e}
+                m = re.match(r"^var:(\w+)$", e)
+                if m and m.group(1) in names:
+                    for d in pr.defs.get(names[m.group(1)], []):
+                        dp = pr._def(d, 1, (names[m.group(1)],))
+                        if re.match(r"^(var|param):\w+$", dp):
+                            vs.add(dp)
+                atoms = g.atoms_at(("s", bb, i))
+                why = None
+                for vv in vs:
+                    o = "Directory::dir_entry(param:self,%s).%s" % (vv, fld)
+                    if any(a_ in ("(Eq(%s,const:NO_STREAM))" % o, "(Eq(%s,const:consts::NO_STREAM))" % o) for a_ in atoms):
+                        why = "old link tested empty"
+                    for a_ in atoms:
+                        m2 = re.match(r"^\(Eq\(%s,var:(\w+)\)\)$" % re.escape(o), a_) or re.match(r"^\(Eq\(var:(\w+),%s\)\)$" % re.escape(o), a_)
+                        if m2 and released_or_handed(m2.group(1)):
+                            why = "old link is the node `%s`, which is released or re-linked" % m2.group(1)
+                        other = "left_sibling" if fld == "right_sibling" else ("right_sibling" if fld == "left_sibling" else None)
+                        if other:
+                            o2 = "Directory::dir_entry(param:self,%s).%s" % (vv, other)
+                            m3 = re.match(r"^\(Ne\(%s,var:(\w+)\)\)$" % re.escape(o2), a_) or re.match(r"^\(Ne\(var:(\w+),%s\)\)$" % re.escape(o2), a_)
+                            if m3 and released_or_handed(m3.group(1)):
+                                why = "the descent came through this entry and its other link is not `%s`" % m3.group(1)
+                        m4 = re.match(r"^\(Eq\(var:(\w+),const:(consts::)?NO_STREAM\)\)$", a_)
+                        if m4 and m4.group(1) in names:
+                            for d in pr.defs.get(names[m4.group(1)], []):
+                                dp = pr._def(d, 1, (names[m4.group(1)],))
+                                alts = dp[4:-1].split("|") if dp.startswith("phi(") and dp.endswith(")") else [dp]
+                                if any(x.startswith("Directory::dir_entry(param:self,%s)." % vv) and x.split(".")[-1] in LINKF for x in alts):
+                                    why = "the walk variable `%s`, loaded from this entry's link, was tested empty" % m4.group(1)
+                    # (c) old value loaded and handed on
+                    for b2, blk2 in enumerate(f.blocks):
+                        for st2 in blk2["stmts"]:
+                            if st2["s"] == "assign" and not st2["place"]["proj"] and st2["rv"]["r"] == "use" and st2["rv"]["op"]["k"] in ("copy", "move") \
+                                    and st2["rv"]["op"]["place"]["proj"] and pr.place(st2["rv"]["op"]["place"]) == o and handed_on(st2["place"]["local"]):
+                                why = why or "old link loaded and handed on"
+                key = "R-LINKKEEP/%s/%s.%s" % (f.path, wildname(e), fld)
+                if why:
+                    res.ok({"function": f.path, "entry": e[:50], "link": fld, "old_link": why}, nontrivial=True)
+                else:
+                    res.fail(Finding(res.rule, key + "/old-link-dropped", "%s of entry %s is overwritten (line %d) and nothing accounts for what it pointed to: it is not tested against NO_STREAM, not known to be the released node, and its value is never loaded and handed on to another link - the subtree below it leaves the sibling tree" % (fld, e[:60], st["span"]["line"]), f, st["span"]))
+        res.floor("link overwrites", n, ctx.table("floors").get("linkkeep_sites", 0))
+        return res
+    return run
+
+
+def wildname(p):
+    return re.sub(r"(var|param):\w+", r"\1:*", p)[:60]
